@@ -22,6 +22,7 @@ A = {
  "C05-w6A": ("singlylinkedlist Remove fast path for index 0 and Add testing last == nil (queue drained by Dequeue, then Enqueue)", {}),
  "C05-w6B": ("singlylinkedlist FromJSON builds the chain directly and records the tail only if last == nil (non-empty queue loaded, then Enqueue)", {}),
  "C05-w6C": ("circularbuffer Values() straightens a wrapped ring in place (a write in a read-only call)", {}),
+ "C06-w6A": ("binaryheap keeps the last result of Values(); FromJSON of a document of the same length does not drop it", {}),
  "C07-w6A": ("redblacktree: 'the root is black' moved into deleteCase1 blackens the removed node, not its replacement (two keys, root removed, regrown)", {}),
  "C07-w6B": ("avltree FromJSON bulk-builds a median-split tree with balance factors derived from counts (a loaded tree of >= 6 keys, then Puts on one side)", {S: "the structure walk of C07 is part of the follow-up oracles after every load (C12) and in C16"}),
  "C07-w6C": ("btree insertIntoLeaf walks backwards from the last entry instead of bisecting: orders >= 63 with descending keys exceed the bound", {}),
@@ -38,11 +39,14 @@ A = {
  "C11-w6B": ("doublylinkedlist FromJSON never assigns last for a one-element document", {}),
  "C11-w6C": ("redblacktree ToJSON keys the document by utils.ToString(key): key types with a String method (time.Weekday, enums)", {S: "the C11 value-types world round-trips the tree-backed maps over a named integer key type with a String method"}),
  "C12-w6A": ("singlylinkedlist FromJSON overwrites nodes in place; a one-element document onto a longer list leaves last on the cut-off tail", {}),
- "C12-w6B": ("treebidimap FromJSON inlines Put without dropping the old inverse entry of a key equal under a coarsened comparator", {}),
+ "C12-w6B": ("treebidimap FromJSON inlines Put without dropping the old inverse entry of a key equal under a coarsened comparator", {S: "F17 foreign writer: documents written by a container of the same kind under the natural order, so that several distinct keys of the document are one key for the loading container's coarsened comparator"}),
  "C12-w6C": ("linkedhashmap FromJSON builds its per-member probe with Go quoting (%q): member names with control characters, DEL or astral non-printables vanish", {}),
  "C13-w6A": ("hashset Clear drops the table and Union clones a nil map: a cleared, still empty receiver with a non-empty argument panics", {}),
  "C13-w6B": ("linkedhashset Difference strikes out members without deleting them from the result's table", {}),
  "C13-w6C": ("treeset algebra iterates a kept snapshot refreshed only when the size changed (operand walked, edited to the same size, used again)", {}),
+ "C14-w6A": ("treemap Each/Any/All/Find range over a flattened view that FromJSON (through the tree, not the wrapper) does not drop (enumerated, reloaded with as many entries, enumerated)", {S: "the persistence histories contain read-only and enumerable calls (one load in three is directly preceded by one) and every load is followed by Each and one of Any/All/Find judged against the iterator sequence"}),
+ "C14-w6B": ("linkedhashmap Select clones the whole hash table and rebuilds only the ordering: rejected entries stay as phantom members of the result", {}),
+ "C14-w6C": ("arraylist Select/Map of an empty list return a list sharing the receiver's backing array (cleared list with spare capacity)", {}),
  "C15-w6A": ("btree Clear keeps the old root as an empty leaf: Height() of a cleared tree is 1, of a new one 0", {}),
  "C15-w6B": ("circularbuffer FromJSON bulk copy leaves end == capacity for documents of >= capacity elements: the next Enqueue panics", {}),
  "C15-w6C": ("arraylist Add adopts a spread argument slice when the list has no storage", {}),
